@@ -43,7 +43,7 @@ def regenerate():
         "assumed_tensor_params": {"%s::%s" % (f.module, f.qual): sorted(set(f.assumed_tensor_params)) for f in fns if f.assumed_tensor_params},
         "allow_ids_used": sorted({a for t in table for a in t["allowed"]}),
         "allow_ids_unused": sorted({a["id"] for a in allow} - {a for t in table for a in t["allowed"]}),
-        "skipped": list(own_ir.LAST_SKIPPED),
+        "skipped": list(own_ir.LAST_SKIPPED), "cache_fills": list(own_ir.CACHE_FILLS),
     }
     json.dump(meta, open(os.path.join(gen, "own_table.json"), "w"), indent=1)
     return meta
@@ -238,7 +238,7 @@ def grid(ctx, only_functions=None, thorough=None):
 
 # ---- call-sequence cells (harness/c13_seq.py): run by two worker processes concurrently with the other stages
 
-def seq_start(ctx, thorough, nparts=2):
+def seq_start(ctx, thorough, nparts=2, budget=0, tokens=()):
     import subprocess
     import sys
     gen = os.path.join(common.COQ, PROP, "gen")
@@ -246,11 +246,12 @@ def seq_start(ctx, thorough, nparts=2):
     procs = []
     for part in range(nparts):
         out = os.path.join(gen, "seq_%d_%d.json" % (os.getpid(), part))
-        p = subprocess.Popen([sys.executable, "-m", "harness.c13_seq", str(ctx.seed), "1" if thorough else "0", str(part), str(nparts), out],
+        p = subprocess.Popen([sys.executable, "-m", "harness.c13_seq", str(ctx.seed), "1" if thorough else "0", str(part), str(nparts), out,
+                              str(int(budget)), ",".join(tokens)],
                              cwd=common.VERIF, env=dict(os.environ, OMP_NUM_THREADS="1", MKL_NUM_THREADS="1"),
                              stdout=subprocess.DEVNULL, stderr=subprocess.PIPE)
         procs.append((p, out))
-    return {"procs": procs, "thorough": thorough, "t0": time.time()}
+    return {"procs": procs, "thorough": thorough, "t0": time.time(), "budget": budget}
 
 
 def seq_collect(ctx, handle, timeout=1400):
@@ -275,7 +276,8 @@ def seq_collect(ctx, handle, timeout=1400):
             pass
         if rows is None:
             ctx.say("sequence worker %d failed; running its cells in-process" % part)
-            rows, _ = c13_seq.run_cells(c13_seq.grid_cells(ctx.seed, handle["thorough"], c13_dyn.LAYOUTS)[part::nparts], ctx.seed)
+            rows, _ = c13_seq.run_cells(c13_seq.grid_cells(ctx.seed, handle["thorough"], c13_dyn.LAYOUTS)[part::nparts], ctx.seed,
+                                        deadline=(time.time() + handle["budget"]) if handle.get("budget") else None)
         parts.append(rows)
     out = []
     for i in range(max(len(x) for x in parts) if parts else 0):
@@ -321,7 +323,7 @@ def hit_key(meta, case, lay, hit, loc):
     return key
 
 
-def dynamic_stage(ctx, meta, cells, types, localise_limit=200, seq_rows=None, skip=None):
+def dynamic_stage(ctx, meta, cells, types, localise_limit=200, seq_rows=None, skip=None, deadline=None):
     """cells: [(case, layout, kind)] run here; seq_rows: results of the call-sequence cells (run by the workers); skip: cells
     (entry, variant, layout) already run and reported by an earlier, narrower stage"""
     from . import c13_cases, c13_dyn, c13_seq
@@ -334,7 +336,12 @@ def dynamic_stage(ctx, meta, cells, types, localise_limit=200, seq_rows=None, sk
     hits, degenerate = [], 0
     distinct = set()
     raised_samples = {}
+    ran_cells = []
     for (case, lay, kind) in cells:
+        if deadline is not None and time.time() > deadline:
+            stat["not-run (time budget of the widened search)"] += 1
+            continue
+        ran_cells.append((case, lay, kind))
         r = c13_dyn.run_case(case, lay, ctx.seed, prof)
         stat[r["status"]] += 1
         by_kind[kind] += 1
@@ -394,7 +401,7 @@ def dynamic_stage(ctx, meta, cells, types, localise_limit=200, seq_rows=None, sk
         ctx.violation({"kind": "type-assumption-contradicted", "function": "%s::%s" % (tv[0], tv[1]), "parameter": tv[2], "observed_type": tv[3],
                        "correspondence": "tensor-typed parameters assumed by harness/own_ir.py (annotations / c13_types.json)"}, no_input=True)
     return {"stat": dict(stat), "by_kind": dict(by_kind), "by_layout": dict(by_layout), "hits": reported, "degenerate": degenerate, "distinct_ok": len(distinct),
-            "distinct": distinct, "sequence": dict(seqstat), "ran": {(c[0][0], c[0][1], c[1]) for c in cells} | {(r["entry"], r["variant"], r["layout"]) for r in seq_rows or []},
+            "distinct": distinct, "sequence": dict(seqstat), "ran": {(c[0][0], c[0][1], c[1]) for c in ran_cells} | {(r["entry"], r["variant"], r["layout"]) for r in seq_rows or []},
             "executed": prof.executed, "type_checks": prof.type_checks, "type_violations": len(prof.type_violations),
             "raised_samples": dict(list(raised_samples.items())[:6])}
 
@@ -503,10 +510,32 @@ def merge_dyn(a, b):
     return out
 
 
+WIDEN_BUDGET_S = 230      # a failing quick run should stay below ~5 min: the widened search stops when this much wall time has passed since the start of the run
+
+
+def site_tokens(want):
+    """words by which cells that are likely to reach an open static site are recognised (class name without the
+    LinearOperator suffix, function name): those cells are run first in the widened, time-boxed search"""
+    toks = []
+    for s in (want if isinstance(want, list) else []):
+        f = s["function"].split(".")[0]
+        for suf in ("LinearOperator",):
+            if f.endswith(suf) and len(f) > len(suf):
+                f = f[:-len(suf)]
+        short = {"KroneckerProduct": "Kron", "KroneckerProductAddedDiag": "KronAddedDiag", "KroneckerProductDiag": "KronDiag",
+                 "KroneckerProductTriangular": "KronTriangular", "SumKronecker": "SumKron"}.get(f, f)
+        for t in (f, short, s["function"].split(".")[-1].strip("_")):
+            if t and t not in toks:
+                toks.append(t)
+    return toks
+
+
 def search(ctx, meta, types, seqh, want=None):
     """the dynamic search (grid cells in this process + call-sequence cells from the workers `seqh`) at the tier's width; in the quick
     tier, when something is open (`want`: failing static sites without a known finding, or a broken proof: want=True) and the
-    quick width does not produce a concrete input for it, the search is widened to the thorough width (cells already run are skipped)"""
+    quick width does not produce a concrete input for it, the search is widened towards the thorough width (cells already run are
+    skipped), cells that mention the class / function of an open site first, within a wall-time budget (WIDEN_BUDGET_S since the
+    start of the run).  Returns the results and the cells of the TIER's width (what the trace stage re-runs)."""
     def satisfied(d):
         new = [h for h in d["hits"] if not h["known"]]
         if want is True:
@@ -515,12 +544,18 @@ def search(ctx, meta, types, seqh, want=None):
     cells = grid(ctx)
     d = dynamic_stage(ctx, meta, cells, types, localise_limit=400 if want else 200, seq_rows=seq_collect(ctx, seqh))
     if want and ctx.quick and not satisfied(d):
-        ctx.say("open obligation without a concrete input at quick width: widening the dynamic search to thorough width")
-        h2 = seq_start(ctx, True)
-        wide = grid(ctx, thorough=True)
-        d2 = dynamic_stage(ctx, meta, wide, types, localise_limit=400, seq_rows=seq_collect(ctx, h2), skip=d["ran"])
-        d = merge_dyn(d, d2)
-        cells = wide
+        left = WIDEN_BUDGET_S - (time.time() - ctx.t0)
+        if left < 20:
+            ctx.say("open obligation without a concrete input at quick width; no time budget left for a wider search")
+            return d, cells
+        ctx.say("open obligation without a concrete input at quick width: widening the dynamic search (budget %d s)" % left)
+        toks = site_tokens(want)
+        h2 = seq_start(ctx, True, budget=left, tokens=toks)
+        wide = [c for c in grid(ctx, thorough=True) if (c[0][0], c[0][1], c[1]) not in d["ran"]]
+        wide.sort(key=lambda c: 0 if any(t in c[0][0] for t in toks) else 1)
+        d2 = dynamic_stage(ctx, meta, wide, types, localise_limit=400, skip=d["ran"], deadline=time.time() + left, seq_rows=None)
+        d3 = dynamic_stage(ctx, meta, [], types, localise_limit=400, seq_rows=seq_collect(ctx, h2, timeout=left + 60), skip=d["ran"])
+        d = merge_dyn(merge_dyn(d, d2), d3)
     return d, cells
 
 
